@@ -218,7 +218,8 @@ class PenlogPriority(IntEnum):
                 return Loglevel.WARNING
             case self.ERROR:
                 return Loglevel.ERROR
-            case self.CRITICAL:
+            # Python has nothing more severe than CRITICAL.
+            case self.CRITICAL | self.ALERT | self.EMERGENCY:
                 return Loglevel.CRITICAL
             case _:
                 raise ValueError("invalid value")
